@@ -1070,6 +1070,9 @@ class FracShim(_RatLike):
         return self._reduced_den()
 
     def __repr__(self):
+        if not is_term(self._v):
+            f = RealFraction(self._v)
+            return "%s(%s, %s)" % (type(self).__name__, f.numerator, f.denominator)   # like fractions.Fraction
         return f"{type(self).__name__}({self._v})"
 
     def limit_denominator(self, *a):
